@@ -63,6 +63,7 @@ type MonSwaps struct {
 	seenKeys map[string]int
 	queueLen int
 	checkedHeight int64
+	kind0 map[uint64]bool // UseOracle of every pool when first seen
 }
 
 var debugC04 = os.Getenv("ELYSSIM_DEBUG_C04") != ""
@@ -130,6 +131,14 @@ func parseCoin1(s string) (sdk.Coin, bool) {
 
 func (m *MonSwaps) AfterBlock(s *Sim, eb *ExecBlock) {
 	defer func() { m.reqs = nil; m.seenKeys = map[string]int{} }()
+	if m.kind0 == nil {
+		m.kind0 = map[uint64]bool{}
+	}
+	for _, p := range s.N0.App.AmmKeeper.GetAllPool(s.Ctx()) {
+		if _, seen := m.kind0[p.PoolId]; !seen {
+			m.kind0[p.PoolId] = p.PoolParams.UseOracle // recorded in the block the pool appears in
+		}
+	}
 	if !s.Ledger.BlockOK {
 		return // the event stream of this block is unusable (see Ledger.Ingest)
 	}
@@ -289,6 +298,19 @@ func (m *MonSwaps) AfterBlock(s *Sim, eb *ExecBlock) {
 func bigOf(i sdkmath.Int) *big.Int { return i.BigInt() }
 
 func (m *MonSwaps) checkPrice(s *Sim, eb *ExecBlock, pool ammtypes.Pool, se *swapEvt) {
+	// A pool whose kind governance has switched (oracle <-> constant product, only the edge-case
+	// governance agent of the C18 profile does that) keeps weights and an accounted pool from its
+	// former life; C03 quantifies over reserves, weights, fees and prices, not over such
+	// conversions, so its swaps are not judged.
+	if m.kind0 == nil {
+		m.kind0 = map[uint64]bool{}
+	}
+	if k0, seen := m.kind0[pool.PoolId]; !seen {
+		m.kind0[pool.PoolId] = pool.PoolParams.UseOracle
+	} else if k0 != pool.PoolParams.UseOracle {
+		s.Stats.Probe("swap_on_pool_converted_by_governance_not_judged")
+		return
+	}
 	s.Stats.Probe("swap_checked")
 	bin, okIn := se.pre[se.in.Denom]
 	bout, okOut := se.pre[se.out.Denom]
